@@ -399,6 +399,16 @@ Theorem C15_aggregate_foreign_contributor_rejected : forall q,
 Proof. exact aggregate_foreign_rejected. Qed.
 Print Assumptions C15_aggregate_foreign_contributor_rejected.
 
+(* FastAggregateVerify (POP scheme, one common message: pair the message with the sum of the keys)
+   gives the same verdict as the general aggregate check *)
+Theorem C15_fast_aggregate_verify_equiv : forall q,
+  1 < q ->
+  forall pks m sg dst,
+  pks <> [] -> (forall pk, In pk pks -> k_sub pk = true /\ k_a pk mod q <> 0) ->
+  core_verify q (agg_pk q pks) m sg dst = core_aggregate_verify q pks (map (fun _ => m) pks) sg dst.
+Proof. exact (fun q => fast_aggregate_verify_equiv q (fun _ => [])). Qed.
+Print Assumptions C15_fast_aggregate_verify_equiv.
+
 (* ======================= the hypotheses are satisfiable by non-trivial instances ===================== *)
 (* y^2 = x^3 + 7 over F_13: prime order 7, n < p < 2n; a signature produced and verified *)
 Example C15_ecdsa_nonvacuous :
